@@ -673,6 +673,24 @@ class TermEngine:
                     return d["name"]
         return None
 
+    def edge_guards(self, b):
+        """one fact list per way of entering block b: the dominating facts of the predecessor plus the outcome of the
+        predecessor's own test on the edge into b (`if a || b {..}`: the block is entered from two tests)"""
+        out = []
+        for p in self.cfg.pred.get(b, []):
+            fs = list(self.facts_at(p))
+            t = self.fn.blocks[p]["term"]
+            if t["k"] == "switch" and p in self.switch_term:
+                c, vm = self.switch_term[p]
+                labs = [v for v, s_ in t["targets"] if s_ == b]
+                if labs and t["otherwise"] != b:
+                    for v in labs[:1]:
+                        fs.append((c, v, vm, p))
+                elif t["otherwise"] == b and not labs:
+                    fs.append((c, ("not", tuple(v for v, _ in t["targets"])), vm, p))
+            out.append(fs)
+        return out or [list(self.facts_at(b))]
+
     def facts_at(self, b):
         """dominating branch facts at block b as [(cond_term, value, variants)]"""
         ef = getattr(self, "_ef", None)
